@@ -1,5 +1,6 @@
 /-
-  Lemmas on `Records.runLog`: a prefix of successful steps writes exactly its own rows.
+  Lemmas on `Records.runLog`: a prefix of successful steps writes exactly its own rows (row `j * dt`
+  for step number `j`).
 -/
 import Boario.Records
 
@@ -7,47 +8,99 @@ namespace Boario.Records
 
 variable {V : Type}
 
-/-- `k` successful steps with values `vals t`, starting at row `t0` -/
-def okRunFrom (vals : Nat → Rec → V) (t0 k : Nat) : List ((Rec → V) × StepEnd) :=
-  (List.range' t0 k).map fun t => (vals t, StepEnd.ok)
+/-- `k` successful steps, step numbers `j0, …, j0 + k - 1`, with the values `vals j` -/
+def okRunFrom (vals : Nat → Rec → V) (j0 k : Nat) : List ((Rec → V) × StepEnd) :=
+  (List.range' j0 k).map fun j => (vals j, StepEnd.ok)
 
-/-- the log after `k` successful steps from row `t0` -/
-def okLog (c : Cfg) (vals : Nat → Rec → V) (t0 k : Nat) (log : Log V) : Log V :=
-  fun r row => if t0 ≤ row ∧ row < t0 + k ∧ tracked c r = true then some (vals row r) else log r row
+theorem okRunFrom_zero (vals : Nat → Rec → V) (j0 : Nat) : okRunFrom vals j0 0 = [] := by
+  simp [okRunFrom]
 
-theorem runLog_okRunFrom_append (c : Cfg) (vals : Nat → Rec → V) (k : Nat) :
-    ∀ (t0 : Nat) (log : Log V) (rest : List ((Rec → V) × StepEnd)),
-    runLog c (okRunFrom vals t0 k ++ rest) t0 log = runLog c rest (t0 + k) (okLog c vals t0 k log) := by
+theorem okRunFrom_succ (vals : Nat → Rec → V) (j0 k : Nat) :
+    okRunFrom vals j0 (k + 1) = (vals j0, StepEnd.ok) :: okRunFrom vals (j0 + 1) k := by
+  simp [okRunFrom, List.range'_succ]
+
+theorem okRunFrom_append (vals : Nat → Rec → V) (j0 i k : Nat) :
+    okRunFrom vals j0 i ++ okRunFrom vals (j0 + i) k = okRunFrom vals j0 (i + k) := by
+  simp only [okRunFrom, ← List.map_append]
+  congr 1
+  have := List.range'_append (s := j0) (m := i) (n := k) (step := 1)
+  rw [Nat.one_mul] at this
+  exact this
+
+/-- a run of successful steps followed by `rest`: `rest` continues from the log and the time reached -/
+theorem runLog_okRunFrom_append (c : Cfg) (dt : Nat) (vals : Nat → Rec → V) (k : Nat) :
+    ∀ (j0 t0 : Nat) (log : Log V) (rest : List ((Rec → V) × StepEnd)),
+    runLog c dt (okRunFrom vals j0 k ++ rest) t0 log
+      = runLog c dt rest (t0 + k * dt) (runLog c dt (okRunFrom vals j0 k) t0 log).1 := by
   induction k with
   | zero =>
-    intro t0 log rest
-    have : okLog c vals t0 0 log = log := by
-      funext r row
-      simp only [okLog]
-      rw [if_neg]; omega
-    simp [okRunFrom, this]
+    intro j0 t0 log rest
+    simp [okRunFrom_zero, runLog]
   | succ k ih =>
-    intro t0 log rest
-    have h1 : okRunFrom vals t0 (k + 1) = (vals t0, StepEnd.ok) :: okRunFrom vals (t0 + 1) k := by
-      simp [okRunFrom, List.range'_succ]
-    rw [h1, List.cons_append]
+    intro j0 t0 log rest
+    rw [okRunFrom_succ, List.cons_append]
     simp only [runLog]
     rw [ih]
-    have h2 : okLog c vals (t0 + 1) k (writeStep c t0 (vals t0) StepEnd.ok log) = okLog c vals t0 (k + 1) log := by
-      funext r row
-      simp only [okLog, writeStep, written]
-      by_cases h : row = t0
-      · subst h
-        by_cases ht : tracked c r = true <;> simp [ht]
-      · by_cases ht : tracked c r = true
-        · simp only [ht, h, and_true, if_false]
-          congr 1
-          apply propext
-          omega
-        · simp [ht]
-    rw [h2]
     congr 1
-    omega
+    rw [Nat.succ_mul]; omega
+
+/-- the time reached after `k` successful steps -/
+theorem runLog_okRunFrom_time (c : Cfg) (dt : Nat) (vals : Nat → Rec → V) (k : Nat) :
+    ∀ (j0 t0 : Nat) (log : Log V),
+    (runLog c dt (okRunFrom vals j0 k) t0 log).2 = t0 + k * dt := by
+  induction k with
+  | zero =>
+    intro j0 t0 log
+    simp [okRunFrom_zero, runLog]
+  | succ k ih =>
+    intro j0 t0 log
+    rw [okRunFrom_succ]
+    simp only [runLog]
+    rw [ih, Nat.succ_mul]; omega
+
+/-- rows that are not the row of one of the `k` steps are unchanged -/
+theorem runLog_okRunFrom_other (c : Cfg) (dt : Nat) (vals : Nat → Rec → V) (k : Nat) :
+    ∀ (j0 t0 : Nat) (log : Log V) (r : Rec) (row : Nat),
+    (∀ j, j < k → row ≠ t0 + j * dt) →
+    (runLog c dt (okRunFrom vals j0 k) t0 log).1 r row = log r row := by
+  induction k with
+  | zero =>
+    intro j0 t0 log r row _
+    simp [okRunFrom_zero, runLog]
+  | succ k ih =>
+    intro j0 t0 log r row h
+    rw [okRunFrom_succ]
+    simp only [runLog]
+    rw [ih]
+    · have h0 : row ≠ t0 := by simpa using h 0 (Nat.succ_pos k)
+      simp [writeStep, h0]
+    · intro j hj
+      have := h (j + 1) (Nat.succ_lt_succ hj)
+      rw [Nat.succ_mul] at this
+      omega
+
+/-- the row of step number `j0 + j` holds the values of that step (steps of positive length) -/
+theorem runLog_okRunFrom_row (c : Cfg) (dt : Nat) (hdt : 0 < dt) (vals : Nat → Rec → V) (k : Nat) :
+    ∀ (j0 t0 : Nat) (log : Log V) (r : Rec) (j : Nat), j < k → tracked c r = true →
+    (runLog c dt (okRunFrom vals j0 k) t0 log).1 r (t0 + j * dt) = some (vals (j0 + j) r) := by
+  induction k with
+  | zero => intro j0 t0 log r j hj; omega
+  | succ k ih =>
+    intro j0 t0 log r j hj hr
+    rw [okRunFrom_succ]
+    simp only [runLog]
+    cases j with
+    | zero =>
+      rw [runLog_okRunFrom_other]
+      · simp [writeStep, hr, written]
+      · intro j' _
+        have : 0 ≤ j' * dt := Nat.zero_le _
+        omega
+    | succ j =>
+      have h1 : t0 + (j + 1) * dt = (t0 + dt) + j * dt := by rw [Nat.succ_mul]; omega
+      have h2 : j0 + (j + 1) = (j0 + 1) + j := by omega
+      rw [h1, h2]
+      exact ih _ _ _ _ _ (by omega) hr
 
 theorem writeStep_congr (c c' : Cfg) (h : c.registerStocks = c'.registerStocks) (t : Nat)
     (v : Rec → V) (e : StepEnd) (log : Log V) : writeStep c t v e log = writeStep c' t v e log := by
@@ -55,9 +108,9 @@ theorem writeStep_congr (c c' : Cfg) (h : c.registerStocks = c'.registerStocks) 
   funext r row
   simp only [writeStep, ht]
 
-theorem runLog_congr (c c' : Cfg) (h : c.registerStocks = c'.registerStocks)
+theorem runLog_congr (c c' : Cfg) (dt : Nat) (h : c.registerStocks = c'.registerStocks)
     (steps : List ((Rec → V) × StepEnd)) : ∀ (t : Nat) (log : Log V),
-    runLog c steps t log = runLog c' steps t log := by
+    runLog c dt steps t log = runLog c' dt steps t log := by
   induction steps with
   | nil => intro t log; rfl
   | cons p rest ih =>
@@ -65,9 +118,9 @@ theorem runLog_congr (c c' : Cfg) (h : c.registerStocks = c'.registerStocks)
     obtain ⟨v, e⟩ := p
     cases e <;> simp only [runLog, writeStep_congr c c' h, ih]
 
-theorem runLog_untracked (c : Cfg) (r : Rec) (hr : tracked c r = false)
+theorem runLog_untracked (c : Cfg) (dt : Nat) (r : Rec) (hr : tracked c r = false)
     (steps : List ((Rec → V) × StepEnd)) : ∀ (t : Nat) (log : Log V),
-    (∀ row, log r row = none) → ∀ row, (runLog c steps t log).1 r row = none := by
+    (∀ row, log r row = none) → ∀ row, (runLog c dt steps t log).1 r row = none := by
   induction steps with
   | nil => intro t log hl row; exact hl row
   | cons p rest ih =>
